@@ -208,9 +208,6 @@ def check_case(case):
             res.fail(f"{ID}/non-finite/operator/order={qcd},{qe}/method={c['method']}", f"{cfgs}: non-finite operator entries at {k}")
         if err is not None and not np.all(np.isfinite(err)):
             res.fail(f"{ID}/non-finite/error/order={qcd},{qe}/method={c['method']}", f"{cfgs}: non-finite error entries at {k}")
-    zero = silently_zero(c)
-    if zero:
-        res.fail(f"{ID}/silently-zero/{zero}", f"{cfgs}: accepted, but the top-order ingredient '{zero}' is identically zero")
     n = len(c["xgrid"])
     ident = np.zeros((14, n, 14, n))
     for p in range(14):
@@ -221,6 +218,13 @@ def check_case(case):
     trivial = all(np.allclose(op, ident, rtol=0, atol=1e-14) for op, _ in ops.values())  # nothing had to be computed (zero-length path)
     if trivial:
         res.classes.append("outcome=identity-shortcut")
+    try:
+        zero = None if trivial else silently_zero(c)  # an identity shortcut never consulted the ingredients
+    except (NotImplementedError, ValueError):
+        zero = None  # the probed ingredient refuses for the probe's flavour number: undecided, not a silent zero
+        res.classes.append("probe-refused")
+    if zero:
+        res.fail(f"{ID}/silently-zero/{zero}", f"{cfgs}: accepted, but the top-order ingredient '{zero}' is identically zero")
     if why is not None and not trivial:
         res.fail(
             f"{ID}/silently-computed/{why}",
